@@ -165,6 +165,38 @@ fn eq_case<K: Elem, V: Elem>(c: &mut Ctx, a_spec: &Spec, b_spec: &Spec, rng: &mu
     }
 }
 
+/// `==` must depend on the contents only, also when both operands are the same object: a map holding a value that is
+/// not equal to itself (NaN) is not equal to anything, and comparing with itself must agree with comparing with a clone.
+#[allow(clippy::eq_op)]
+fn self_eq_case(c: &mut Ctx, rng: &mut Rng) {
+    use crate::ckalloc::CkAlloc;
+    use crate::plan::PlanBH;
+    let bh = PlanBH::new(crate::mapdrv::pick_plan(rng), rng.next());
+    let mut m: hashbrown::HashMap<P8, f64, PlanBH, CkAlloc> = hashbrown::HashMap::with_hasher_in(bh, CkAlloc);
+    let n = rng.below(20) as u32;
+    for i in 0..n {
+        m.insert(P8::make(i, 0), i as f64);
+    }
+    c.evaluations += 1;
+    c.sig_parts(&[9, n.min(3) as u64]);
+    let cl = m.clone();
+    crate::check!(m == m && m == cl && cl == m, "a map of ordinary values is not == itself / its clone");
+    let with_nan = rng.chance(2, 3);
+    if with_nan {
+        m.insert(P8::make(1000, 0), f64::NAN);
+        let cl = m.clone();
+        let self_eq = m == m;
+        let clone_eq = m == cl;
+        crate::check!(!clone_eq, "a map holding a NaN value compares equal to its clone");
+        crate::check!(self_eq == clone_eq, "m == m is {} but m == m.clone() is {}: == depends on whether the operands are the same object", self_eq, clone_eq);
+    }
+    let mut s: hashbrown::HashSet<P8, PlanBH, CkAlloc> = hashbrown::HashSet::with_hasher_in(bh, CkAlloc);
+    for i in 0..n {
+        s.insert(P8::make(i, 0));
+    }
+    crate::check!(s == s && s == s.clone(), "a set is not == itself / its clone");
+}
+
 fn set_eq_case<T: Elem>(c: &mut Ctx, a_spec: &Spec, b_spec: &Spec) {
     let a: SetC<T> = build(a_spec);
     let mut b: SetC<T> = build(b_spec);
@@ -257,7 +289,10 @@ pub fn run(c: &mut Ctx) {
                 table_clone::<P8>(c, &tspec);
                 zst_clone(c, rng);
             }
-            6 => eq_case::<T24, T24>(c, &tspec, &sspec, rng),
+            6 => {
+                eq_case::<T24, T24>(c, &tspec, &sspec, rng);
+                self_eq_case(c, rng);
+            }
             _ => eq_case::<P8, B1>(c, &tspec, &sspec, rng),
         }
     });
